@@ -858,12 +858,13 @@ func c19Class(fd *c19Field, realSchema any, jsonFormat, spec, real bool) string 
 	}
 	if spec && !real {
 		switch {
+		case fd.wraps:
+			return "count_bound_wraps_int64"
 		case jsonFormat && fd.yaml11:
 			return "string_const_yaml11_in_json"
 		case fd.retyped:
+			// repaired by /repo 7f6805c (literals are tagged !!str): named only so that a return of it is recognisable
 			return "string_const_in_retyped"
-		case fd.wraps:
-			return "count_bound_wraps_int64"
 		}
 		return ""
 	}
